@@ -130,6 +130,15 @@ def run(repo: Repo, chk: Check):
                       "name the same way, so the jump cannot land in (or fall through to) another function's region (shared with R05.d)", floor=6)
     from .shared import rule_function_labels
     chk.guarded(rule_function_labels, repo, chk, "R07.f")
+    chk.rule("R07.i", "a loop is closed by its back jump: the jump to the loop head is emitted together with the loop and the exit label follows it, so the end of "
+                      "a top-level 'while True:' is never reached by running off the loop body into the first function (shared with R01.e / R05.c)", floor=9)
+    from .shared import rule_loop_labels
+    chk.guarded(rule_loop_labels, repo, chk, "R07.i")
+    chk.rule("R07.j", "a function body is left through the return address of the call that entered it: ra is saved and restored around inner calls in both "
+                      "conventions and 'pop ra' never takes a pushed return value for the address, otherwise 'j ra' jumps into the body of some other function "
+                      "(shared with R06.c/d/f/i)", floor=6)
+    from .c06 import r06cdf
+    chk.shared({"R06.c": "R07.j", "R06.d": "R07.j", "R06.f": "R07.j", "R06.i": "R07.j"}, r06cdf, repo, chk)
 
 
 # ---------------------------------------------------------------------- R07.c
